@@ -76,6 +76,10 @@ pub struct ClsCase {
     /// large primes then occur at every size)
     #[serde(default)]
     pub use_double: Option<bool>,
+    /// history: the output directory already holds the files of an earlier computation for D = -prior
+    /// (same process, default preferences) when this one starts
+    #[serde(default, skip_serializing_if = "Option::is_none")]
+    pub prior: Option<u64>,
 }
 
 impl ClsCase {
@@ -145,6 +149,7 @@ pub fn case_of_dabs(dabs: u64, shape: &str, threads: Option<usize>) -> Option<Cl
         threads,
         // every third discriminant of the sweeps runs with the double-large-prime variation forced
         use_double: if (dabs / 4) % 3 == 0 { Some(true) } else { None },
+        prior: None,
     };
     if c.dabs() == Some(dabs as u128) {
         Some(c)
@@ -230,6 +235,7 @@ pub fn strategy_mid(lo: u32, maxbits: u32) -> impl Strategy<Value = ClsCase> {
                         eight,
                         threads: if thr { Some(4) } else { None },
                         use_double: if seed % 3 == 0 { Some(true) } else { None },
+                        prior: None,
                     };
                     match c.dabs() {
                         Some(d) if d < 1u128 << maxbits && d >= 3 => break c,
@@ -317,6 +323,7 @@ pub fn strategy_big(lo: u32, hi: u32) -> impl Strategy<Value = ClsCase> {
                 eight,
                 threads: if thr { Some(4) } else { None },
                 use_double: if seed % 3 == 0 { Some(true) } else { None },
+                prior: None,
             };
             match c.dabs() {
                 Some(d) if 128 - d.leading_zeros() <= hi => break c,
@@ -790,6 +797,13 @@ pub fn check(c: &ClsCase, l: &mut Local) -> Result<(), Fail> {
     if let Err(e) = std::fs::create_dir_all(&dir) {
         return Err(Fail::new("HARNESS|tmpdir", format!("cannot create {}: {}", dir.display(), e)));
     }
+    if let Some(d0) = c.prior {
+        // an earlier, unrelated computation into the same directory (its result is not judged here)
+        if forms::is_fundamental_abs(d0) {
+            let _ = call_library(d0 as u128, None, Some(true), &dir);
+            l.label("history:outdir-reused");
+        }
+    }
     l.case();
     l.label("calls");
     let classes: [&str; 3] = [
@@ -885,6 +899,7 @@ fn golden() -> Vec<ClsCase> {
         eight,
         threads: None,
         use_double: None,
+        prior: None,
     };
     vec![
         mk(&[21827869366691, 3720220850369, 3420347448653], false),  // 128 bits (test_classgroup)
@@ -941,6 +956,13 @@ fn run(ctx: &Ctx) {
     }
     if ctx.is_chk() {
         gold.truncate(12);
+    }
+    // the same output directory used for a second computation: a large relation file first, a small one after
+    for (k, g) in golden().into_iter().enumerate().take(16) {
+        let prior = [47288038152303512u64, 1000000000000000127, 4 * 1000000007u64 * 998244353, 8 * 2305843009213693951u64 / 8 * 8 + 0][k % 3];
+        if forms::is_fundamental_abs(prior) {
+            gold.push(ClsCase { prior: Some(prior), ..g });
+        }
     }
     run_cases(ctx, &gold);
 
